@@ -14,7 +14,9 @@
 (*   set the wrapped pool_rdm received), which conditions the prediction   *)
 (*   covers, which RDMs it was compared with, the two scores * 10^8.       *)
 (*   It must be Score's new entry: the prediction pooled from the OTHER    *)
-(*   groups only (cv: the training RDMs at the test conditions).           *)
+(*   groups only (cv: the training RDMs at the test conditions); the upper *)
+(*   prediction pooled from everything (cv: from ALL data RDMs at the test *)
+(*   conditions of the fold, cut BEFORE pooling).                          *)
 (* "ret" event: the returned bounds are the averages over the folds;       *)
 (*   lower <= upper (cosine / correlation type, singleton groups);         *)
 (*   for rho-a on logged integer data both bounds equal the exact          *)
